@@ -1278,6 +1278,37 @@ Proof.
   intros e He _ _. apply Hb; exact He.
 Qed.
 
+(* the form used below: the bound on the log is needed only when the log is fully
+   persisted, which become_leader asserts *)
+Definition LBP (l : raft_log) : Prop := last_index l = persisted l -> LogBounded l.
+
+Lemma LogBounded_LBP l : LogBounded l -> LBP l.
+Proof. intros H _. exact H. Qed.
+
+Lemma LBP_set_limit l k : LBP l -> LBP (set_limit l k).
+Proof.
+  intros H Hp. eapply LogBounded_same_ents; [apply same_ents_set_limit|]. apply H.
+  rewrite <- (last_index_eq l (set_limit l k)) by reflexivity. exact Hp.
+Qed.
+
+Lemma become_leader_persisted r r' :
+  become_leader r = Ok r' -> last_index (r_log r) = persisted (r_log r).
+Proof.
+  unfold become_leader. intros H.
+  destruct (role_eqb (r_state r) Follower); [discriminate|].
+  inv_bind H. apply reset_fields in Hx. destruct Hx as (_ & _ & Hl & _).
+  cbn in H. rewrite Hl in H.
+  destruct (last_index (r_log r) =? persisted (r_log r)) eqn:E; cbn [negb] in H; [|discriminate].
+  apply N.eqb_eq in E. exact E.
+Qed.
+
+Theorem become_leader_ConfBound' r r' :
+  become_leader r = Ok r' -> LBP (r_log r) -> ConfBound r' /\ r_state r' = Leader.
+Proof.
+  intros H Hb. eapply become_leader_ConfBound; [exact H|]. apply Hb.
+  eapply become_leader_persisted; exact H.
+Qed.
+
 (* --- the proposal path of step_leader --- *)
 
 Lemma ConfBound_filter r ents info i r1 ents' ok :
@@ -1760,8 +1791,8 @@ Qed.
 
 Lemma poll_gen_LInv rc r from v r' res :
   poll_gen rc r from v = Ok (r', res) ->
-  r_state r <> Leader -> LogBounded (r_log r) ->
-  (forall ra ra', rc ra = Ok ra' -> r_state ra <> Leader -> LogBounded (r_log ra) -> LInv ra') ->
+  r_state r <> Leader -> LBP (r_log r) ->
+  (forall ra ra', rc ra = Ok ra' -> r_state ra <> Leader -> LBP (r_log ra) -> LInv ra') ->
   LInv r' /\ (res <> VoteWon -> r_state r' <> Leader).
 Proof.
   unfold poll_gen. intros H Hs Hb Hrc.
@@ -1776,12 +1807,12 @@ Proof.
     + inv_bind H. inversion H; subst. split; [|congruence].
       eapply Hrc; [exact Hx|rewrite Hs0; exact Hs|rewrite Hl0; exact Hb].
     + inv_bind H. inv_bind H. inversion H; subst. split; [|congruence].
-      apply become_leader_ConfBound in Hx; [|rewrite Hl0; exact Hb]. destruct Hx as [Hcb _].
+      apply become_leader_ConfBound' in Hx; [|rewrite Hl0; exact Hb]. destruct Hx as [Hcb _].
       apply bcast_append_fr in Hx0. intros _. eapply fr_ConfBound; eassumption.
 Qed.
 
 Lemma campaign_real_LInv tr r r' :
-  campaign_real tr r = Ok r' -> LogBounded (r_log r) -> LInv r'.
+  campaign_real tr r = Ok r' -> LBP (r_log r) -> LInv r'.
 Proof.
   unfold campaign_real. intros H Hb. inv_bind H. apply become_candidate_fields in Hx.
   destruct Hx as (Hs & Hl & _). inv_bind H. destruct x0 as [r2 res].
@@ -1794,7 +1825,7 @@ Proof.
 Qed.
 
 Lemma campaign_pre_LInv r r' :
-  campaign_pre r = Ok r' -> LogBounded (r_log r) -> LInv r'.
+  campaign_pre r = Ok r' -> LBP (r_log r) -> LInv r'.
 Proof.
   unfold campaign_pre, poll. intros H Hb. inv_bind H. apply become_pre_candidate_fields in Hx.
   destruct Hx as (Hs & Hl). inv_bind H. destruct x0 as [r2 res].
@@ -1808,7 +1839,7 @@ Proof.
 Qed.
 
 Lemma hup_LInv r tl r' :
-  hup r tl = Ok r' -> LogBounded (r_log r) -> LInv r -> LInv r'.
+  hup r tl = Ok r' -> LBP (r_log r) -> LInv r -> LInv r'.
 Proof.
   intros H Hb Hinv. apply hup_spec in H.
   destruct H as [[_ ->]|[(_ & _ & ->)|(_ & _ & Hc)]]; try exact Hinv.
@@ -1826,14 +1857,14 @@ Proof.
 Qed.
 
 Lemma poll_LInv r from v r' res :
-  poll r from v = Ok (r', res) -> r_state r <> Leader -> LogBounded (r_log r) -> LInv r'.
+  poll r from v = Ok (r', res) -> r_state r <> Leader -> LBP (r_log r) -> LInv r'.
 Proof.
   unfold poll. intros H Hs Hb. apply poll_gen_LInv in H; [apply H|exact Hs|exact Hb|].
   intros ra ra' Hc _ Hba. eapply campaign_real_LInv; eassumption.
 Qed.
 
 Lemma step_candidate_LInv r m r' c :
-  step_candidate r m = Ok (r', c) -> r_state r <> Leader -> LogBounded (r_log r) -> LInv r'.
+  step_candidate r m = Ok (r', c) -> r_state r <> Leader -> LBP (r_log r) -> LInv r'.
 Proof.
   unfold step_candidate. intros H Hs Hb.
   destruct (m_type m =? MsgPropose). { inversion H; subst. apply not_leader_LInv; exact Hs. }
@@ -1855,7 +1886,7 @@ Proof.
 Qed.
 
 Lemma step_follower_LInv r m r' c :
-  step_follower r m = Ok (r', c) -> r_state r <> Leader -> LogBounded (r_log r) -> LInv r'.
+  step_follower r m = Ok (r', c) -> r_state r <> Leader -> LBP (r_log r) -> LInv r'.
 Proof.
   unfold step_follower. intros H Hs Hb.
   assert (Hfwd : forall rr mm, send r mm = Ok rr -> LInv rr).
@@ -1890,18 +1921,18 @@ Qed.
 
 (* C09: Raft::step keeps the leader invariant, for every state and every message *)
 Theorem step_LInv r m r' c :
-  step r m = Ok (r', c) -> LogBounded (r_log r) -> LInv r -> LInv r'.
+  step r m = Ok (r', c) -> LBP (r_log r) -> LInv r -> LInv r'.
 Proof.
   intros H Hb Hinv. unfold step in H. inv_bind H.
   assert (Hpre : match x with
                  | inl (r1, _) => LInv r1
-                 | inr r1 => LInv r1 /\ LogBounded (r_log r1)
+                 | inr r1 => LInv r1 /\ LBP (r_log r1)
                  end).
   { clear H.
-    assert (Hbf : forall t l r1, become_follower r t l = Ok r1 -> LInv r1 /\ LogBounded (r_log r1)).
+    assert (Hbf : forall t l r1, become_follower r t l = Ok r1 -> LInv r1 /\ LBP (r_log r1)).
     { intros t l r1 Hf. apply become_follower_fields in Hf. destruct Hf as (Hs & _ & Hl & _).
       split; [apply not_leader_LInv; congruence|].
-      rewrite Hl. eapply LogBounded_same_ents; [apply same_ents_set_limit|exact Hb]. }
+      rewrite Hl. apply LBP_set_limit; exact Hb. }
     destruct (m_term m =? 0); [inversion Hx; auto|].
     destruct (r_term r <? m_term m).
     - match type of Hx with (if ?c then _ else _) = _ => destruct c end; [inversion Hx; exact Hinv|].
@@ -1958,7 +1989,7 @@ Qed.
 (* --- ticks --- *)
 
 Theorem tick_LInv r r' b :
-  tick r = Ok (r', b) -> LogBounded (r_log r) -> LInv r -> LInv r'.
+  tick r = Ok (r', b) -> LBP (r_log r) -> LInv r -> LInv r'.
 Proof.
   intros H Hb Hinv. unfold tick in H.
   assert (Hel : r_state r <> Leader -> tick_election r = Ok (r', b) -> LInv r').
@@ -2132,7 +2163,7 @@ Qed.
 (* --- the RawNode API --- *)
 
 Definition RInv (n : rawnode) : Prop := LInv (rn_raft n).
-Definition RB (n : rawnode) : Prop := LogBounded (r_log (rn_raft n)).
+Definition RB (n : rawnode) : Prop := LBP (r_log (rn_raft n)).
 
 Lemma lift2_step_RInv n m n' c :
   lift2 n (step (rn_raft n) m) = Ok (n', c) -> RB n -> RInv n -> RInv n'.
@@ -2770,6 +2801,52 @@ Proof.
 Qed.
 
 (* ------------------------------------------------------------------ *)
+(* bridge to C14: under the RaftLog representation invariant, with no pending snapshot,
+   the hypothesis LBP of the election theorems holds *)
+From RV Require M.MemStorageProofs M.RaftLogProofs.
+
+Transparent last_index.
+Theorem RepInv_LBP rw l :
+  RaftLogProofs.RepInv rw l -> u_snapshot (unst l) = None -> LBP l.
+Proof.
+  intros H Hs Hp e He.
+  destruct H as [Hst _ Hct Hsh Hper _ _ _]. rewrite Hs in Hsh.
+  destruct Hsh as (Hr & Hemp & _). destruct Hper as [Hp1 Hp2].
+  assert (Hu : u_entries (unst l) = []).
+  { destruct (u_entries (unst l)) as [|e0 es] eqn:Eu; [reflexivity|]. exfalso.
+    unfold last_index, u_maybe_last_index in Hp. rewrite Eu in Hp. cbn [length] in Hp. lia. }
+  specialize (Hemp Hu).
+  assert (Hli : last_index l = MemStorageProofs.next_of (store l) - 1).
+  { unfold last_index, u_maybe_last_index. rewrite Hu, Hs. cbn [option_map].
+    apply RaftLogProofs.storage_last_next. exact Hst. }
+  rewrite Hli. destruct He as [He|He]; [rewrite Hu in He; destruct He|].
+  apply In_nth_error in He. destruct He as (k & Hk).
+  destruct Hst as (Hc & _).
+  pose proof (MemStorageProofs.contig_nth _ _ _ _ Hc Hk) as Hi.
+  assert (Hlt : (k < length (entries (store l)))%nat) by (apply nth_error_Some; congruence).
+  unfold MemStorageProofs.next_of. lia.
+Qed.
+Opaque last_index.
+
+(* ConfBound speaks about every entry physically held; in particular about the logical
+   log of C14 (stored entries below the unstable offset, then the unstable entries) *)
+Lemma abs_ents_all l e :
+  In e (RaftLogProofs.ll_ents (RaftLogProofs.abs l)) -> all_ents l e.
+Proof.
+  unfold RaftLogProofs.abs. destruct (u_snapshot (unst l)); cbn [RaftLogProofs.ll_ents]; intros H.
+  - left; exact H.
+  - apply in_app_or in H. destruct H as [H|H]; [right|left; exact H].
+    unfold RaftLogProofs.stable_part in H. eapply In_firstn_in; exact H.
+Qed.
+
+Theorem ConfBound_logical r :
+  ConfBound r ->
+  forall e, In e (RaftLogProofs.ll_ents (RaftLogProofs.abs (r_log r))) ->
+    is_conf_entry e = true -> applied (r_log r) < e_index e ->
+    e_index e <= r_pending_conf_index r.
+Proof. intros H e He. apply H. apply abs_ents_all; exact He. Qed.
+
+(* ------------------------------------------------------------------ *)
 (* concrete states for the non-vacuity examples of Props/C09.v *)
 Module C09Samples.
 
@@ -2825,5 +2902,25 @@ Definition s_solo : raft :=
 Definition s_prop : msg :=
   msg_default <| m_type := MsgPropose |> <| m_from := 1 |>
     <| m_entries := [e_cc 0 0; e_cc 0 0; e_norm 0 0] |> <| m_ccinfo := [3; 3; 0] |>.
+
+(* a leader whose uncommitted-size budget is exhausted, and a one-entry membership proposal *)
+Definition s_leader_full : raft :=
+  s_leader <| r_max_uncommitted_size := 1 |> <| r_uncommitted_size := 1 |>.
+Definition s_prop1 : msg :=
+  msg_default <| m_type := MsgPropose |> <| m_from := 1 |>
+    <| m_entries := [e_cc 0 0] |> <| m_ccinfo := [3] |>.
+(* a proposal whose second membership change does not decode *)
+Definition s_prop_bad : msg :=
+  msg_default <| m_type := MsgPropose |> <| m_from := 1 |>
+    <| m_entries := [e_cc 0 0; e_cc 0 0] |> <| m_ccinfo := [3; 1] |>.
+
+(* a candidate whose entry 3 (not yet known committed) is a membership change, and a vote
+   rejection telling it that entry 3 is committed *)
+Definition s_candidate_cc : raft := s_raft Candidate (s_log (e_cc 1 3) 2 2) c3 0 true 0.
+Definition s_vresp : msg :=
+  msg_default <| m_type := MsgRequestVoteResponse |> <| m_from := 2 |> <| m_term := 2 |>
+    <| m_reject := true |> <| m_commit := 3 |> <| m_commit_term := 1 |>.
+(* a snapshot in whose configuration node 1 is a learner *)
+Definition s_snap : snapshot := mkSnap 5 2 (mkCS [2; 3; 4] [1] [] [] false).
 
 End C09Samples.
